@@ -107,6 +107,16 @@ def generate(rng, tier):
             for a in per_axis[0]:
                 for b in per_axis[1]:
                     yield mk_case(rng, shape, [a, b], fam=rng.choice(["probe_coupled", "fits_cel", "probe"]))
+    # systematic: negative entries behind an Ellipsis (they land on axes beyond the number of entries given), and
+    # second steps with negative bounds on a cube whose first step left an offset
+    for shape in ([3, 4, 5], [2, 3, 4, 5]):
+        for items in (["...", -1], ["...", -2, C.sl(-3, -1)], [0, "...", -1], ["...", C.sl(None, -1)], ["...", -1, -1],
+                      [C.sl(1, None), "...", C.sl(-2, None)], ["...", C.sl(-4, -1), -2]):
+            yield mk_case(rng, shape, items, fam=rng.choice(["probe", "probe_coupled", "fits_sep"]))
+        nd = len(shape)
+        for first in ([C.sl(1, 4)], [C.sl(), C.sl(1, None)], [C.sl(1, -1), C.sl(2, None)], [C.sl(None, -1), C.sl(1, 3)]):
+            for second in ([C.sl(None, -1)], [C.sl(-2, -1)], [C.sl(), C.sl(None, -1)], [C.sl(0, -1), C.sl(-2, None)], [-1, C.sl(None, -1)]):
+                yield mk_case(rng, shape, first + [C.sl()] * (nd - len(first)), chain=second, fam=rng.choice(["probe", "fits_sep"]))
     for k in range(n_random):
         nd = rng.choice([1, 2, 2, 3, 3, 4])
         shape = [rng.randint(1, 5) for _ in range(nd)]
